@@ -1,5 +1,10 @@
 package sim
 
-import "runtime"
+import (
+	"crypto/sha256"
+	"runtime"
+)
 
 func runtimeStack(buf []byte) int { return runtime.Stack(buf, true) }
+
+func hashBytes(b []byte) [32]byte { return sha256.Sum256(b) }
